@@ -2,7 +2,7 @@
    each case is evaluated here: model vs implementation (corr), proven oracle on the implementation's
    output (spec), and whether the case lies in the theorem's domain (wf). *)
 From Coq Require Import ZArith QArith Qround Qabs List Bool.
-From RV Require Export Base.PyNum Timing.Snapper Timing.Snap Timing.TimingMap Timing.Integrate Generated.Tables.
+From RV Require Export Base.PyNum Timing.Snapper Timing.Snap Timing.TimingMap Timing.Integrate Timing.Domain Generated.Tables.
 Import ListNotations.
 Open Scope Q_scope.
 
@@ -32,27 +32,10 @@ Definition is_int_1_8 (q : Q) : bool :=
   Qeq_bool q (inject_Z (Qfloor q)) && Qle_bool 1 q && Qle_bool q 8.
 Definition in_table (x : Q) : bool := existsb (Qeq_bool x) tbl.
 
-(* domain of the theorems: see Props/C10.v *)
-Fixpoint wf_script_go (prev : bcs) (rest : list bcs) : bool :=
-  match rest with
-  | [] => true
-  | c :: rest' =>
-      snap_lt (bs_snap prev) (bs_snap c)
-      && Qlt_bool 0 (bs_bpm c) && is_int_1_8 (bs_met c)
-      && Qle_bool 0 (s_b (bs_snap c)) && Qlt_bool (s_b (bs_snap c)) (bs_met prev) && Qlt_bool (s_b (bs_snap c)) (bs_met c)
-      && Qeq_bool (s_met (bs_snap c)) (bs_met c)
-      && (Qeq_bool (bs_met c) (bs_met prev) || Qeq_bool (s_b (bs_snap c)) 0)
-      && in_table (frac (seg_beats (bs_met prev) (bs_snap prev) (bs_snap c)))
-      && wf_script_go c rest'
-  end.
+(* domain of the theorems: exactly the boolean domain of Props/C10.v (C10_offsets_on_grid), restricted to the
+   metronomes 1..8 the property speaks of *)
 Definition wf_script (l : list bcs) : bool :=
-  match l with
-  | [] => false
-  | c :: rest =>
-      (s_m (bs_snap c) =? 0)%Z && Qeq_bool (s_b (bs_snap c)) 0 && Qlt_bool 0 (bs_bpm c) && is_int_1_8 (bs_met c)
-      && Qeq_bool (s_met (bs_snap c)) (bs_met c)
-      && wf_script_go c rest
-  end.
+  domainb tbl l [] && forallb (fun c => is_int_1_8 (bs_met c)) l.
 
 Definition active_met (l : list bcs) (s : snap) : Q :=
   match l with [] => 0 | c :: rest => bs_met (snd (active_go 0 c rest s)) end.
@@ -107,7 +90,7 @@ Definition check (c : c10case) : verdict :=
   match c with
   | COffsets tol init l qs out =>
       let m := match model_tm init l with None => None | Some b => tm_offsets tbl b qs end in
-      let wf := wf_script l && forallb (wf_query l) qs in
+      let wf := domainb tbl l qs && forallb (fun c => is_int_1_8 (bs_met c)) l in
       {| corr_ok := opt_list_close tol m out;
          spec_ok := negb wf || opt_list_close tol (Some (map (time_of init l) qs)) out;
          wf_ok := wf |}
